@@ -152,6 +152,39 @@ def check(case):
     return {"nontrivial": bool(ev), "classes": classes}
 
 
+def default_cells(tier):
+    """Every detector with its DEFAULT hyper-parameters (optionally one changed) on realistic series of 100-400 samples
+    (strategies.data.realistic_series; deterministic function of the stored seed), as array or as a frame with a time index."""
+    variants = {
+        "PELT": [{}, {"min_segment_length": 10}], "MovingWindow": [{}, {"threshold_scale": None}, {"min_detection_interval": 10}],
+        "SeededBinarySegmentation": [{}, {"threshold_scale": None, "level": 0.01}], "CAPA": [{}, {"max_segment_length": 30}],
+        "MVCAPA": [{}, {"max_segment_length": 30}, {"collective_penalty": "sparse"}],
+        "CircularBinarySegmentation": [{"max_interval_length": 100}, {"max_interval_length": 100, "threshold_scale": None, "level": 0.01}],
+        "StatThresholdAnomaliser": [{"change_detector": {"cls": "PELT"}}, {"change_detector": {"cls": "MovingWindow"}, "stat_lower": -0.5, "stat_upper": 0.5}],
+    }
+    for det, vs in variants.items():
+        for seed in range(8 if tier == "quick" else 32):
+            for v in vs:
+                n = (100, 150, 230, 400)[seed % 4] + seed
+                yield {"detector": det, "params": v, "seed": 25000 + seed, "n": min(n, 160) if det == "CircularBinarySegmentation" else n,
+                       "p": 1 if det == "StatThresholdAnomaliser" else 1 + seed % 3, "frame": seed % 2 == 1}
+
+
+def check_default(case):
+    import pandas as pd
+
+    X, kind = D.realistic_series(case["seed"], case["n"], case["p"])
+    if case["detector"] in ("CAPA", "MVCAPA"):
+        X = X - np.median(X, axis=0)
+    full = K.build(K.detector_spec(case["detector"], case["params"])).get_params(deep=False)
+    params = {k: v for k, v in full.items() if isinstance(v, (int, float, str, bool)) or v is None}
+    sub = {"detector": case["detector"], "params": dict(params, **case["params"]), "X": X, "container": "DataFrame" if case["frame"] else "ndarray",
+           "index": {"kind": "datetime_h", "start": "2024-02-28"}, "columns": "strings", "second": None}
+    info = check(sub)
+    info["classes"] = list(info.get("classes", [])) + [f"data={kind}", f"det={case['detector']}"]
+    return info
+
+
 def make_facet(det, nq, nt):
     return Facet(
         name=det, check=check, strategy=lambda tier, d=det: cases(tier, d),
@@ -171,4 +204,9 @@ FACETS = [
     make_facet("MVCAPA", 320, 5000),
     make_facet("CircularBinarySegmentation", 200, 2500),
     make_facet("StatThresholdAnomaliser", 320, 5000),
+    Facet(name="default_settings", kind="enumerate", enumerate=default_cells, check=check_default, exhaustive=True, time_limit=300,
+          rule=("all seven detectors with their default hyper-parameters (1-2 variants each) on realistic series of 100-430 samples, p 1..3 (shifts + "
+                "seasonal / trend / rounded / bursts / plateau / end events / variance change; seeded), as array or as frame with an hourly index; same "
+                "well-formedness predicate; 128 cells (thorough: 512), non-trivial = at least one detection"),
+          shards_quick=16, shards_thorough=16, max_samples=1),
 ]
